@@ -25,9 +25,9 @@ func init() {
 type pairRel int
 
 const (
-	relSameStatus     pairRel = iota // both judged ⇒ same status
-	relFindingIff                    // both judged ⇒ (finding ⇔ finding), severities differ deliberately
-	relErrorImpliesFinding           // a's error ⇒ b reports a finding
+	relSameStatus          pairRel = iota // both judged ⇒ same status
+	relFindingIff                         // both judged ⇒ (finding ⇔ finding), severities differ deliberately
+	relErrorImpliesFinding                // a's error ⇒ b reports a finding
 )
 
 type rulePair struct {
@@ -436,7 +436,7 @@ func checkC20(ctx *core.Ctx, rep *core.Report) {
 			sub = append(sub, s)
 		}
 	}
-	xstate.Explore(ctx, rep, xstate.Options{Seeds: sub, Depth: 1}, func(st *xstate.State) {
+	xstate.Explore(ctx, rep, xstate.Options{Seeds: sub, Depth: 1, NoCompound: ctx.Quick()}, func(st *xstate.State) {
 		if len(st.Path) > 0 {
 			visit(st)
 		}
